@@ -57,6 +57,12 @@ FamilyMultiRec == { << Fact("f"), Fact("g") >> \o rs \o qs :
                       qs \in { << Rule("q", << L(1, "r") >>) >>,
                                << Rule("q", << L(1, "r") >>), Rule("q", << L(1, "f"), L(1, "g") >>) >>,
                                << Rule("q", << L(1, "f") >>), Rule("q", << L(1, "r") >>) >> } }
+\* KF42: the negated goal c is first called positively below the active goal b, which already has a proof
+\* b :- f.  b :- c.  b :- \+c.  c :- b.     (b is undefined when f is false, yet the engine answers)
+FamilyKF42 == { << Fact("f"), Fact("g"),
+                   Rule("p", << L(1, "f") >>), Rule("p", << L(1, "q") >>), Rule("p", << L(0, "q") >>),
+                   Rule("q", << L(1, "p") >>) >> }
+QSkf42 == { << "p" >> }
 QSmr == { << "r" >>, << "q" >>, << "r", "q" >>, << "q", "r" >> }
 \* a negated goal with a positive cycle of its own, evaluated while an enclosing cycle is open (the shape of KF2):
 \* a :- \+r.  r :- r.  r :- \+p.  p :- p.   - stratified, yet connecting p's cycle to the open root walks through the EvalNot
